@@ -13,6 +13,30 @@
 #include <string_view>
 #include <ostream>
 
+#ifdef CTPG_VERIF
+// Verification hooks (off unless CTPG_VERIF is defined; the harness supplies the definitions).
+namespace ctpg_verif
+{
+    void on_step(bool stacks_ok);               // once per driver-loop iteration and once at loop exit (may throw to abandon a run)
+    void on_lex_step(bool state_ok);            // once per generated-lexer automaton step (may throw to abandon a run)
+
+    constexpr std::size_t canary_value = 0xC7B6A5F4E3D2C1B0ull;
+
+    template<typename Stack>
+    constexpr auto stack_ok(const Stack& s, int) -> decltype(s.ctpg_verif_ok()) { return s.ctpg_verif_ok(); }
+    template<typename Stack>
+    constexpr bool stack_ok(const Stack&, long) { return true; }
+}
+#define CTPG_VERIF_STEP(ps) \
+    do { if (!__builtin_is_constant_evaluated()) \
+        ::ctpg_verif::on_step(::ctpg_verif::stack_ok((ps).cursor_stack, 0) && ::ctpg_verif::stack_ok((ps).value_stack, 0)); } while (false)
+#define CTPG_VERIF_LEX_STEP(ok) \
+    do { if (!__builtin_is_constant_evaluated()) ::ctpg_verif::on_lex_step(ok); } while (false)
+#else
+#define CTPG_VERIF_STEP(ps) ((void)0)
+#define CTPG_VERIF_LEX_STEP(ok) ((void)0)
+#endif
+
 namespace ctpg
 {
 
@@ -189,7 +213,14 @@ namespace stdex
 
     private:
         T the_data[N];
+#ifdef CTPG_VERIF
+        size_type ctpg_verif_canary = ::ctpg_verif::canary_value;
+#endif
         size_type current_size;
+#ifdef CTPG_VERIF
+    public:
+        constexpr bool ctpg_verif_ok() const { return ctpg_verif_canary == ::ctpg_verif::canary_value && current_size <= N; }
+#endif
     };
 
     template<std::size_t N>
@@ -1441,6 +1472,7 @@ namespace regex
         size_t len = 0;
         while (true)
         {
+            CTPG_VERIF_LEX_STEP(state_idx < sm.size());
             const auto& state = sm[state_idx];
             size16_t rec_idx = state.conflicted_recognition[0];
             if (rec_idx != uninitialized16)
@@ -1964,6 +1996,7 @@ public:
 
         while (true)
         {
+            CTPG_VERIF_STEP(ps);
             size16_t cursor = ps.cursor_stack.back();
 
             auto t_idx = get_current_term(ps);
@@ -2017,6 +2050,7 @@ public:
             }
         }
 
+        CTPG_VERIF_STEP(ps);
         return root_value;
     }
 
